@@ -28,7 +28,7 @@ func (comp) Name() string { return "pool" }
 // ---------------------------------------------------------------- transactions of a history
 
 type txSpec struct {
-	hash, sender, relayer []byte
+	hash, sender, relayer     []byte
 	nonce, gasLimit, gasPrice uint64
 	size                      int64
 	fee                       *big.Int
@@ -232,12 +232,12 @@ func genConfig(prop string, rng *rand.Rand) cfgT {
 }
 
 type gen struct {
-	senders [][]byte
+	senders   [][]byte
 	edgeSizes bool // a few transactions have sizes >= 2^31
-	uniform bool // all transactions have the same size (one drop always suffices: no F4)
-	rng   *rand.Rand
-	known map[string]*txSpec // hash determines content
-	order []string
+	uniform   bool // all transactions have the same size (one drop always suffices: no F4)
+	rng       *rand.Rand
+	known     map[string]*txSpec // hash determines content
+	order     []string
 }
 
 func (g *gen) newTx(base string) *txSpec {
@@ -259,6 +259,9 @@ func (g *gen) newTx(base string) *txSpec {
 		t.nonce = core.Pick(rng, []uint64{math.MaxUint64, math.MaxUint64 - 1})
 	}
 	t.gasPrice = core.Pick(rng, []uint64{100, 200, 200, 300})
+	if core.Chance(rng, 1, 25) {
+		t.gasPrice = core.Pick(rng, []uint64{1 << 63, 1<<63 + 200, math.MaxUint64}) // prices 2^63 apart from the ordinary ones
+	}
 	t.gasLimit = core.Pick(rng, []uint64{50000, 50000, 50000, 75000, 100000})
 	if core.Chance(rng, 1, 30) {
 		t.gasLimit = core.Pick(rng, []uint64{0, 1 << 63, (1 << 63) + 5, math.MaxUint64})
@@ -428,6 +431,32 @@ func (comp) Exhaustive(prop string, tier string, yield func(*core.History)) {
 			}
 			sel(math.MaxUint64, 30000)
 		}
+		yield(h)
+	}
+	// MANY-PASS eviction (beyond the small scope): one large, valuable transaction pushes the pool far over NumBytesThreshold; the next
+	// insertion must evict some 240 cheap transactions in more than a hundred batches of two (any bound on the number of passes shows)
+	if base == "C06" || base == "C07" {
+		var senders [][]byte
+		for i := 0; i < 8; i++ {
+			senders = append(senders, []byte(fmt.Sprintf("S%02d", i)))
+		}
+		senders = append(senders, []byte("BIG"))
+		cfg := cfgT{evict: true, numBytes: 40000, bytesPerSender: 1 << 24, count: 1 << 20, countPerSender: 1 << 20, batch: 2, chunks: 16, senders: senders}
+		h := &core.History{}
+		h.SetConfig(cfg.tokens()...)
+		add := func(hash string, sd []byte, nonce uint64, gp uint64, size int64) {
+			t := &txSpec{hash: []byte(hash), sender: sd, nonce: nonce, gasLimit: 50000, gasPrice: gp,
+				fee: new(big.Int).Mul(new(big.Int).SetUint64(gp), big.NewInt(50000)), value: big.NewInt(1), relayer: []byte{}, size: size}
+			h.Add(1, "", t.args()...)
+		}
+		for n := 0; n < 45; n++ {
+			for i := 0; i < 8; i++ {
+				add(fmt.Sprintf("c-%02d-%02d", i, n), senders[i], uint64(n), uint64(100+((i*7+n*3)%11)), 100)
+			}
+		}
+		add("big-0", []byte("BIG"), 0, 100000, 30000)
+		add("late-0", []byte("BIG"), 1, 100000, 100)
+		add("late-1", []byte("BIG"), 2, 100000, 100)
 		yield(h)
 	}
 	mk := func(h, s string, nonce, gl, gp uint64, fee int64, size int64, relayer string) *txSpec {
